@@ -25,6 +25,8 @@ THEOREMS = [
     'C04.lookup_order', 'C04.lookup_order_func', 'C04.builtin_never_shadows', 'C04.eval_variable', 'C04.eval_call',
     'C04.local_assign_writes_locals', 'C04.toplevel_assign_writes_globals', 'C04.call_starts_from_fresh_locals',
     'C04.frameAt', 'C04.globals_frame', 'C04.toplevel_frame', 'C04.assign_local_only', 'C04.call_leaves_globals',
+    # an included script is a top-level script, from whatever scope it is included
+    'C04.include_continues_with_same_locals', 'C04.included_script_runs_at_top_level',
     # host globals and the library
     'C04.inject_preserves_host', 'C04.inject_keeps_host_order', 'C04.inject_eq_spec', 'C04.injectLib_eq_inject',
     'C04.funcdef_overrides_library', 'C04.funcdef_overrides_injected',
@@ -41,11 +43,15 @@ ASSUMPTIONS = [
     'script functions and partial applications of script functions as predicates; likewise systemType() / systemBoolean() with NO argument '
     'and systemGlobalSet(name) with one argument succeed in the code (missing argument = null) but are failures in the Lean host: library '
     'function passed around as a value (it may end up as a predicate) is arrayNew, which cannot fail',
+    'included scripts live in one flat virtual directory served by the fetchFn of the run, so the URL an include resolves to is the URL '
+    'it names (URL resolution, systemPrefix and urlFn are C17); a file that does not parse is C09/C17 matter, generated programs use '
+    'well-formed files and missing files',
     'Python recursion limit: programs are run with maxStatements=200 and the recursion limit raised, so RecursionError (DESIGN section 6) '
     'cannot occur',
 ]
-TRUSTED = ['reference interpreter of scoping / calling convention / library injection (class Ref, with its own systemGlobalGet/Set) and the closed-form binding oracle '
-           '(expected_binding) in harness/props/C04.py; the library functions themselves, the operators and value_string are shared '
+TRUSTED = ['reference interpreter of scoping / calling convention / library injection (class Ref, with its own systemGlobalGet/Set and its own include: an included script runs at top level) and the closed-form '
+           'oracles (expected_binding, the include-scope matrix scope_cell_case, the include-position metamorphic relation) in '
+           'harness/props/C04.py; the library functions themselves, the operators and value_string are shared '
            'with the implementation (they belong to C03/C13/C15)']
 
 MAX_STATEMENTS = 200
@@ -107,8 +113,9 @@ class RefBudget(BaseException):
 
 
 class Ref:
-    def __init__(self, host_globals, budget=4000, expression_builtins=False):
+    def __init__(self, host_globals, budget=4000, expression_builtins=False, files=None):
         mods = fw.impl()
+        self.files = files or {}                              # url -> structured program (flat virtual directory)
         self.runtime, self.library, self.value = mods['runtime'], mods['library'], mods['value']
         self.log = []
         self.budget = budget
@@ -275,15 +282,25 @@ class Ref:
                     node = node.get('else')
             elif k == 'func':
                 self.g[s['name']] = self.make_function(s)     # a script-defined function replaces whatever the global was
+            elif k == 'include':
+                # an included script is a script of its own: its statements are TOP-LEVEL statements - they read and write the
+                # caller-supplied globals object whatever scope the include statement stands in (a function body, a call-back, a
+                # function of another included script); its `return` ends only the included script; the including scope's
+                # locals are neither visible to it nor touched by it
+                for inc in s['includes']:
+                    sub = self.files.get(inc['url'])
+                    if sub is None:
+                        raise self.runtime.BareScriptRuntimeError(f'Include of "{inc["url"]}" failed')
+                    self.block(sub, None)
             else:
                 raise ValueError('outside the reference: ' + k)
         return False, None
 
 
-def run_reference(prog, host_spec):
+def run_reference(prog, host_spec, files=None):
     """-> outcome dict comparable with progen.strip_hidden(progen.run_impl(...)), or None (budget)"""
     library = fw.impl()['library']
-    ref = Ref(realize_globals(host_spec))
+    ref = Ref(realize_globals(host_spec), files=files)
     out = {}
     try:
         done, value_ = ref.block(prog, None)
@@ -319,8 +336,13 @@ def parse(text):
     return fw.impl()['parser'].parse_script(text)
 
 
-def run_impl(model, host_spec, max_statements=MAX_STATEMENTS):
-    return progen.run_impl(model, realize_globals(host_spec), max_statements=max_statements)
+def files_text(files):
+    """{url: structured program} -> {url: source text} (what the host's fetchFn serves)"""
+    return None if files is None else {url: '\n'.join(progen.render(fp)) + '\n' for url, fp in files.items()}
+
+
+def run_impl(model, host_spec, max_statements=MAX_STATEMENTS, files=None):
+    return progen.run_impl(model, realize_globals(host_spec), max_statements=max_statements, files=files_text(files))
 
 
 def budget_exceeded(out):
@@ -331,9 +353,10 @@ def budget_exceeded(out):
 # Oracles on the implementation (independent of Lean).  Each returns [(oracle, expected, actual)] of the failing ones.
 # ---------------------------------------------------------------------------------------------------------------------
 
-def static_names(prog, acc=None, top=True):
-    """names a run may legitimately leave in the globals: top-level assignment targets, function names, systemGlobalSet keys"""
-    acc = {'top': set(), 'funcs': set(), 'gset': set(), 'local': set()} if acc is None else acc
+def static_names(prog, acc=None, top=True, files=None):
+    """names a run may legitimately leave in the globals: top-level assignment targets (of the script and of every script it can
+    include, from whatever scope), function names, systemGlobalSet keys"""
+    acc = {'top': set(), 'funcs': set(), 'gset': set(), 'local': set(), 'seen': set()} if acc is None else acc
 
     def scan_expr(e):
         (k, v), = e.items()
@@ -365,24 +388,29 @@ def static_names(prog, acc=None, top=True):
             while node is not None:
                 if node['k'] != 'else':
                     scan_expr(node['c'])
-                static_names(node['b'] if node['k'] == 'else' else node['t'], acc, top)
+                static_names(node['b'] if node['k'] == 'else' else node['t'], acc, top, files)
                 node = node.get('else') if node['k'] != 'else' else None
         elif k == 'func':
             acc['funcs'].add(s['name'])
             acc['local'].update(s['args'])
-            static_names(s['b'], acc, False)
+            static_names(s['b'], acc, False, files)
+        elif k == 'include':
+            for inc in s['includes']:
+                if inc['url'] in (files or {}) and inc['url'] not in acc['seen']:
+                    acc['seen'].add(inc['url'])
+                    static_names(files[inc['url']], acc, True, files)       # top-level statements, wherever the include stands
     return acc
 
 
-def oracle_run(prog, host_spec, impl):
+def oracle_run(prog, host_spec, impl, files=None):
     """impl: canonical outcome of the implementation on `prog`.  Reference run + the no-leak / host-preservation checks."""
     bad = []
     if budget_exceeded(impl):
         return bad
-    ref = run_reference(prog, host_spec)
+    ref = run_reference(prog, host_spec, files)
     if ref is not None and ref != progen.strip_hidden(impl):
         bad.append(('reference-run', ref, progen.strip_hidden(impl)))
-    names = static_names(prog)
+    names = static_names(prog, files=files)
     allowed = set(host_spec) | names['top'] | names['funcs'] | names['gset']
     if '*' not in names['gset']:
         leaked = sorted(k for k, _ in impl['globals'] if k not in allowed)
@@ -764,6 +792,262 @@ class CallGen:
         return g
 
 
+INC_URLS = ['i0.bare', 'i1.bare', 'i2.bare']
+# names an included script reads and assigns at ITS top level: the parameter / local names of the functions that may include it
+INC_NAMES = DATA_VARS + ['p', 'q', 'r', 'cb', 'pf']
+
+
+class IncludeGen(CallGen):
+    """CallGen + `include` statements in EVERY scope: 1-3 included scripts (generated by the same generator: own functions, top-level
+    assignments / reads of the names the including functions use as parameters and locals, systemGlobalSet/Get, calls, an early
+    `return`, a missing file) included from the top level, from function bodies (also under an `if`, in call-backs, through partials),
+    from the top level of another included script and from the functions of another included script; a script includes only
+    lower-ranked files, so there is no include cycle"""
+
+    def __init__(self, rng, allow_sort=False):
+        super().__init__(rng, allow_sort)
+        self.files = {}            # url -> structured program
+        self.avail = []            # urls an include statement generated now may name
+        self.in_file = False
+
+    def include_stmts(self, in_func, params):
+        rng = self.rng
+        if rng.random() < 0.04:
+            urls = ['missing.bare']
+            self.tags.add('include-missing')
+        else:
+            urls = [rng.choice(self.avail)]
+            if rng.random() < 0.15:
+                urls.append(rng.choice(self.avail))
+                self.tags.add('include-two-urls')
+        self.tags.add('include:' + ('function-of-included-script' if in_func and self.in_file else 'function' if in_func else
+                                    'top-of-included-script' if self.in_file else 'top-level'))
+        inc = {'k': 'include', 'includes': [{'url': u} for u in urls]}
+        out = []
+        if in_func and rng.random() < 0.4:
+            # a local named like something the included script uses, bound just before the include
+            self.tags.add('include-after-local-assignment')
+            out.append({'k': 'expr', 'name': rng.choice(INC_NAMES), 'e': self.atom([])})
+        if rng.random() < 0.2:
+            self.tags.add('include-under-if')
+            inc = {'k': 'if', 'c': rng.choice([var('true'), num(1), self.atom([])]), 't': [inc], 'else': None}
+        out.append(inc)
+        for v in rng.sample(INC_NAMES + list(params), rng.randint(1, 2)):        # what the including scope sees afterwards
+            out.append({'k': 'expr', 'name': None, 'e': call('systemLog', wf_binary('+', string(f'ai:{v}:'), var(v)))})
+        return out
+
+    def scope_stmts(self, scope, rank, in_func, params=(), rest=False):
+        out = super().scope_stmts(scope, rank, in_func, params, rest)
+        if self.avail and self.rng.random() < (0.5 if in_func else 0.4):
+            pos = self.rng.randint(0, len(out))
+            out[pos:pos] = self.include_stmts(in_func, params)
+        return out
+
+    def make_file(self, url):
+        rng = self.rng
+        saved, self.funcs, self.in_file = self.funcs, [], True     # an included script calls the functions it defines itself
+        prog = [self.funcdef(rank) for rank in range(rng.choice([0, 1, 1, 2]))]
+        for _ in range(rng.randint(1, 2)):
+            v = rng.choice(INC_NAMES)
+            prog.append({'k': 'expr', 'name': None, 'e': call('systemLog', wf_binary('+', string(f'{url}:{v}:'), var(v)))})
+            if rng.random() < 0.7:
+                prog.append({'k': 'expr', 'name': v, 'e': self.atom(INC_NAMES)})
+        prog += self.scope_stmts(INC_NAMES, len(self.funcs), False, params=('p', 'q', 'cb'))
+        if rng.random() < 0.15:
+            self.tags.add('include-return')                          # `return` ends only the included script
+            prog.insert(rng.randint(max(0, len(prog) - 2), len(prog)), {'k': 'ret', 'e': self.atom(INC_NAMES) if rng.random() < 0.7 else None})
+        self.files[url] = progen.assign_fids(prog)
+        self.avail.append(url)
+        self.funcs, self.in_file = saved, False
+
+    def program(self):
+        for url in INC_URLS[:self.rng.randint(1, 3)]:
+            self.make_file(url)
+        self.tags.add(f'files{len(self.files)}')
+        prog = super().program()
+        if not any(t in self.tags for t in ('include:function', 'include:top-level')):
+            tops = [i for i, s in enumerate(prog) if s['k'] != 'func']
+            pos = self.rng.choice(tops) if tops else len(prog)
+            prog[pos:pos] = self.include_stmts(False, ())
+        return prog
+
+    def host(self):
+        g = super().host()
+        if self.rng.random() < 0.3:
+            g[self.rng.choice(['p', 'q', 'cb'])] = self.rng.choice([1, 'hp', None, [4]])
+            self.tags.add('host-binds-parameter-name')
+        return g
+
+
+def lit(v):
+    return num(v) if isinstance(v, (int, float)) and not isinstance(v, bool) else string(v)
+
+
+def log_stmt(e):
+    return {'k': 'expr', 'name': None, 'e': call('systemLog', e)}
+
+
+def probe_stmts(name):
+    """the statements whose output is probe_lines(value of `name`)"""
+    return [log_stmt(call('systemType', var(name))), log_stmt(var(name))]
+
+
+WRAP_NAMES = INC_NAMES + FN_NAMES + ['arrayLength', 'arrayNew', 'arrayGet']
+WRAP_MAX_STATEMENTS = 2 * MAX_STATEMENTS
+
+
+def random_wrapper(rng):
+    n = rng.randint(0, 3)
+    return {'params': rng.sample(WRAP_NAMES, n), 'rest': n > 0 and rng.random() < 0.35,
+            'args': [rng.choice([11, 's2', 0, '', 55]) for _ in range(rng.randint(0, 4))],
+            'assign': [[rng.choice(WRAP_NAMES), rng.choice([21, 'loc', 0])] for _ in range(rng.randint(0, 2))],
+            'guard': rng.random() < 0.2}
+
+
+def oracle_include_transparent(fprogs, url, host_spec, wrapper):
+    """metamorphic, implementation only: `include U` issued inside a script function - whatever the function's parameters, arguments
+    and locals are called - has the effect of `include U` issued at top level: same log, same error, same final globals; and the
+    function's locals afterwards are exactly what the call bound / the function assigned (closed form)"""
+    names = static_names([], files=fprogs)
+    for fp in fprogs.values():
+        static_names(fp, names, True, fprogs)
+    fixed = {'systemLog', 'systemType', 'wrapIt'}
+    if fixed & (names['funcs'] | names['top'] | names['gset'] | set(host_spec)) or '*' in names['gset']:
+        return []                                    # the probes themselves would be redefined
+    inc = {'k': 'include', 'includes': [{'url': url}]}
+    end = []
+    for v in INC_NAMES:
+        end += [log_stmt(string('e:' + v))] + probe_stmts(v)
+    bound = expected_binding(wrapper['params'], wrapper['rest'], [float(a) if isinstance(a, int) else a for a in wrapper['args']])
+    body = []
+    for name, value_ in wrapper['assign']:
+        body.append({'k': 'expr', 'name': name, 'e': lit(value_)})
+        bound[name] = float(value_) if isinstance(value_, int) else value_
+    body.append({'k': 'if', 'c': var('true'), 't': [inc], 'else': None} if wrapper['guard'] else inc)
+    wlog = []
+    for name, value_ in bound.items():
+        body += [log_stmt(string('w:' + name))] + probe_stmts(name)
+        wlog += ['w:' + name] + probe_lines(value_)
+    prog_a = [inc] + end
+    prog_b = [fdef('wrapIt', wrapper['params'], body, wrapper['rest']),
+              {'k': 'expr', 'name': None, 'e': call('wrapIt', *[lit(a) for a in wrapper['args']])}] + end
+    outs = []
+    for prog in (prog_a, prog_b):
+        out = run_impl(parse('\n'.join(progen.render(prog))), host_spec, max_statements=WRAP_MAX_STATEMENTS, files=fprogs)
+        if budget_exceeded(out):
+            return []
+        out = progen.strip_hidden(out)
+        out['globals'] = [kv for kv in out['globals'] if kv[0] != 'wrapIt']
+        outs.append(out)
+    a, b = outs
+    want = dict(a)
+    if 'error' not in a:
+        k = len(end)
+        want['log'] = a['log'][:len(a['log']) - k] + wlog + a['log'][len(a['log']) - k:]
+        want['result'] = None
+    if b != want:
+        return [('include-position-independent', want, b)]
+    return []
+
+
+# the exhaustive include-scope matrix --------------------------------------------------------------------------------------------
+
+SCOPE_POSITIONS = ['top', 'function', 'if-in-function', 'nested-call', 'variable', 'partial', 'indexof', 'nested-include', 'mid-function']
+SCOPE_BINDINGS = ['param', 'rest', 'local', 'param+local', 'none']
+SCOPE_GSTATES = ['script', 'host', 'unbound']
+SCOPE_NAMES = ['x', 'arrayLength']
+
+
+def scope_cells():
+    for name in SCOPE_NAMES:
+        for gstate in SCOPE_GSTATES:
+            yield ['top', 'none', gstate, name]
+            for position in SCOPE_POSITIONS[1:]:
+                for binding in SCOPE_BINDINGS:
+                    yield [position, binding, gstate, name]
+
+
+def scope_cell_case(cell):
+    """-> (structured program, files, host globals, expected log, expected global bindings [wire form]).  The included script
+    `inc.bare` reads NAME, assigns NAME, defines incFn() returning NAME and assigns incFresh - all at ITS top level; the include is
+    issued from `position` while the including function binds NAME as `binding` and the global NAME is in state `gstate`"""
+    position, binding, gstate, name = cell
+    lib = fw.impl()['library'].SCRIPT_FUNCTIONS
+    inc = {'k': 'include', 'includes': [{'url': 'inc.bare'}]}
+    files = {'inc.bare': probe_stmts(name) + [asg(name, string('inc-value')), fdef('incFn', [], [{'k': 'ret', 'e': var(name)}]),
+                                              asg('incFresh', string('fresh-value'))]}
+    host = {name: 'H'} if gstate == 'host' else {}
+    g_before = {'script': 'G', 'host': 'H'}.get(gstate, lib.get(name))
+    prog, want, want_globals = [], [], {name: 'inc-value', 'incFresh': 'fresh-value', 'incFn': {'f': 'script'}}
+    if position == 'top':
+        if gstate == 'script':
+            prog.append(asg(name, string('G')))
+        prog.append(inc)
+        want += probe_lines(g_before)
+    else:
+        params = [name] if binding in ('param', 'rest', 'param+local') else []
+        local = {'param': 'A', 'rest': ['A'], 'local': 'L', 'param+local': 'L'}.get(binding)
+        body = [asg(name, string('L'))] if binding in ('local', 'param+local') else []
+        body += probe_stmts(name)
+        want += probe_lines(g_before if binding == 'none' else local)              # no local binding: the read falls through to the global
+        if position == 'if-in-function':
+            body.append({'k': 'if', 'c': var('true'), 't': [inc], 'else': None})
+        elif position == 'nested-call':
+            prog.append(fdef('inner', [], [inc]))
+            body.append(asg(None, call('inner')))
+        elif position == 'nested-include':
+            files['mid.bare'] = [inc, asg('midDone', num(1))]
+            body.append({'k': 'include', 'includes': [{'url': 'mid.bare'}]})
+            want_globals['midDone'] = {'n': [1, 1]}
+        elif position == 'mid-function':
+            files['mid.bare'] = [fdef('midFn', [name], [inc] + probe_stmts(name) + [{'k': 'ret', 'e': var(name)}]),
+                                 asg('midRes', call('midFn', string('M')))]
+            body.append({'k': 'include', 'includes': [{'url': 'mid.bare'}]})
+            want_globals['midRes'] = 'M'
+        else:
+            body.append(inc)
+        want += probe_lines(g_before)                                              # the included script's top-level read: the GLOBAL
+        if position == 'mid-function':
+            want += probe_lines('M')
+        body += probe_stmts(name) + [{'k': 'ret', 'e': var(name)}]
+        after = 'inc-value' if binding == 'none' else local                        # the function's own binding is untouched
+        want += probe_lines(after)
+        prog.append(fdef('outer', params, body, binding == 'rest'))
+        if gstate == 'script':
+            prog.append(asg(name, string('G')))
+        if position == 'variable':
+            prog += [asg('fv', var('outer')), asg('res', call('fv', string('A')))]
+        elif position == 'partial':
+            prog += [asg('pv', call('systemPartial', var('outer'), string('A'))), asg('res', call('pv'))]
+        elif position == 'indexof':
+            prog.append(asg('res', call('arrayIndexOf', call('arrayNew', string('A')), var('outer'))))
+            after = 0.0                                                            # every value outer returns here is truthy
+        else:
+            prog.append(asg('res', call('outer', string('A'))))
+        prog += probe_stmts('res')
+        want += probe_lines(after)
+        want_globals['res'] = progen.value_to_wire(after)
+    prog += probe_stmts(name) + [log_stmt(call('incFn')), log_stmt(var('incFresh'))]
+    want += probe_lines('inc-value') + ['inc-value', 'fresh-value']                # the top-level writes reached the globals object
+    return progen.assign_fids(prog), files, host, want, want_globals
+
+
+def check_scope_outcome(cell, impl, want, want_globals):
+    final = dict((k, v) for k, v in impl.get('globals', []))
+    got_globals = {k: final.get(k, '<absent>') for k in want_globals}
+    if 'error' in impl or 'hostexc' in impl or impl.get('log') != want or got_globals != want_globals:
+        return [('include-runs-at-top-level', {'log': want, 'globals': want_globals},
+                 {'log': impl.get('log'), 'globals': got_globals, **{k: impl[k] for k in ('error', 'hostexc') if k in impl}})]
+    return []
+
+
+def check_scope_cell(cell):
+    prog, files, host, want, want_globals = scope_cell_case(cell)
+    impl = run_impl(parse('\n'.join(progen.render(prog))), host, files=files)
+    return check_scope_outcome(cell, impl, want, want_globals)
+
+
+
 # ---------------------------------------------------------------------------------------------------------------------
 # Streams
 # ---------------------------------------------------------------------------------------------------------------------
@@ -795,6 +1079,8 @@ def structured_of_text(text):
             elif k == 'function':
                 out.append({'k': 'func', 'fid': 0, 'name': v['name'], 'args': list(v.get('args', [])),
                             'lastArgArray': bool(v.get('lastArgArray')), 'async': False, 'b': conv(v['statements'])})
+            elif k == 'include':
+                out.append({'k': 'include', 'includes': [{'url': i['url']} for i in v['includes']]})
             else:
                 raise ValueError('corpus program outside the subset: ' + k)
         return out
@@ -806,26 +1092,35 @@ def witness_all(ctx, kind, inp, bad):
         ctx.witness(oracle, dict(inp, kind=kind), want, got)
 
 
-def compare_program(ctx, stream, st, prog, host_spec, tags, flags, resp, modelled=True):
+def compare_program(ctx, stream, st, prog, host_spec, tags, flags, resp, modelled=True, files=None):
+    """files: None or {url: structured program} - the scripts the host's fetchFn serves (one flat virtual directory)"""
     text = '\n'.join(progen.render(prog))
     model = parse(text)
     run_model = explicit_flags(model) if flags else model
-    impl = run_impl(run_model, host_spec)
+    impl = run_impl(run_model, host_spec, files=files)
     nontrivial = 'error' not in impl and 'hostexc' not in impl and any(ln for ln in impl['log'])
     outcome = 'hostexc' if 'hostexc' in impl else ('exceeded' if budget_exceeded(impl) else ('error' if 'error' in impl else 'ok'))
-    st.case([text, host_spec, flags], nontrivial=nontrivial, tags=sorted(tags) + [outcome] + (['explicit-lastArgArray'] if flags else []))
+    inp = {'text': text, 'globals': host_spec, 'explicit_flags': flags}
+    if files is not None:
+        inp['files'] = files_text(files)
+    st.case([text, host_spec, flags] + ([inp['files']] if files is not None else []), nontrivial=nontrivial,
+            tags=sorted(tags) + [outcome] + (['explicit-lastArgArray'] if flags else []))
     if modelled:
-        ctx.compare(stream, {'text': text, 'globals': host_spec, 'explicit_flags': flags}, impl, progen.canon_model_out(resp))
+        ctx.compare(stream, inp, impl, progen.canon_model_out(resp))
     if 'hostexc' in impl:
-        ctx.witness('no-host-exception', {'kind': 'program', 'text': text, 'globals': host_spec, 'explicit_flags': flags},
-                    'result or BareScriptRuntimeError', impl['hostexc'])
-    witness_all(ctx, 'program', {'text': text, 'globals': host_spec, 'explicit_flags': flags, 'prog': prog},
-                oracle_run(prog, host_spec, impl))
+        ctx.witness('no-host-exception', dict(inp, kind='program', fprogs=files), 'result or BareScriptRuntimeError', impl['hostexc'])
+    witness_all(ctx, 'program', dict(inp, prog=prog, fprogs=files), oracle_run(prog, host_spec, impl, files))
+    return impl
 
 
-def exec_request(prog, host_spec):
-    model = parse('\n'.join(progen.render(prog)))
-    return {'op': 'exec', 'script': progen.canon_script(model), 'globals': wire_globals(host_spec), 'max': MAX_STATEMENTS, 'fuel': FUEL}
+def exec_request(prog, host_spec, files=None):
+    """function ids are numbered through the script and then through the files in url order (one function table in the model)"""
+    counter = [0]
+    req = {'op': 'exec', 'script': progen.canon_script(parse('\n'.join(progen.render(prog))), counter),
+           'globals': wire_globals(host_spec), 'max': MAX_STATEMENTS, 'fuel': FUEL}
+    if files is not None:
+        req['files'] = [[url, progen.canon_script(parse('\n'.join(progen.render(fp))), counter)] for url, fp in sorted(files.items())]
+    return req
 
 
 def stream_calls(ctx):
@@ -839,16 +1134,18 @@ def stream_calls(ctx):
                              'error and logs something')
     cases = []
     for entry in load_corpus():
-        cases.append((structured_of_text(entry['text']), entry.get('globals', {}), {'corpus'}, False))
-        cases.append((structured_of_text(entry['text']), entry.get('globals', {}), {'corpus'}, True))
+        files = {url: structured_of_text(t) for url, t in entry['files'].items()} if 'files' in entry else None
+        tags = {'corpus'} | ({'corpus-include'} if files is not None else set())
+        cases.append((structured_of_text(entry['text']), entry.get('globals', {}), tags, False, files))
+        cases.append((structured_of_text(entry['text']), entry.get('globals', {}), tags, True, files))
     rng = ctx.rng('calls')
     for i in range(ctx.scale(1500, 30000)):
         gen = CallGen(rng)
         prog = gen.program()
-        cases.append((prog, gen.host(), gen.tags, i % 2 == 1))
-    resps = ctx.driver.batch([exec_request(prog, host) for prog, host, _, _ in cases])
-    for (prog, host, tags, flags), resp in zip(cases, resps):
-        compare_program(ctx, 'calls', st, prog, host, tags, flags, resp)
+        cases.append((prog, gen.host(), gen.tags, i % 2 == 1, None))
+    resps = ctx.driver.batch([exec_request(prog, host, files) for prog, host, _, _, files in cases])
+    for (prog, host, tags, flags, files), resp in zip(cases, resps):
+        compare_program(ctx, 'calls', st, prog, host, tags, flags, resp, files=files)
 
 
 def stream_sort(ctx):
@@ -859,6 +1156,51 @@ def stream_sort(ctx):
         gen = CallGen(rng, allow_sort=True)
         prog = gen.program()
         compare_program(ctx, 'sort', st, prog, gen.host(), gen.tags, rng.random() < 0.5, None, modelled=False)
+
+
+def stream_includescope(ctx):
+    st = ctx.stream('includescope', 'exhaustive include-scope matrix: an included script that reads NAME, assigns NAME, defines a function '
+                                    'reading NAME and assigns a fresh name at ITS top level, included from {top level, a function body, under '
+                                    'an `if` in a function, a function called by the function, a function called through a variable / a '
+                                    'partial / as arrayIndexOf predicate, an intermediate included script, a function of an intermediate '
+                                    'included script} x the including function binds NAME as {parameter, `...` parameter, assigned local, '
+                                    'both, not at all} x the global NAME is {assigned by the script, supplied by the host, unbound} x NAME is '
+                                    '{a variable name, a library function name}; closed-form expectation (the included script sees and '
+                                    'writes the globals object, the function\'s binding is untouched), Lean machine and the Python reference')
+    cells = list(scope_cells())
+    cases = [scope_cell_case(cell) for cell in cells]
+    resps = ctx.driver.batch([exec_request(prog, host, files) for prog, files, host, _, _ in cases])
+    for cell, (prog, files, host, want, want_globals), resp in zip(cells, cases, resps):
+        impl = compare_program(ctx, 'includescope', st, prog, host, {'position:' + cell[0], 'binding:' + cell[1], 'global:' + cell[2]},
+                               False, resp, files=files)
+        witness_all(ctx, 'include-scope', {'cell': cell, 'text': '\n'.join(progen.render(prog)), 'files': files_text(files), 'globals': host},
+                    check_scope_outcome(cell, impl, want, want_globals))
+    st.exhaustive = True
+
+
+def stream_includes(ctx):
+    st = ctx.stream('includes', 'generated call programs with `include` statements in every scope: 1-3 generated included scripts (own '
+                                'functions - also under library names -, top-level reads / assignments of the names the including functions '
+                                'use as parameters and locals, systemGlobalSet/Get, early `return`, a missing file) included from the top '
+                                'level, function bodies, under `if`, call-backs and partials, the top level and the functions of other '
+                                'included scripts, x the host configurations of `calls` + host bindings of parameter names; execute_script '
+                                '(fetchFn serving the files) vs Lean machine vs the Python reference; plus the metamorphic oracle: the '
+                                'top-ranked file included from inside a random wrapper function (0-3 parameters named like the names the '
+                                'file uses, optional `...`, 0-4 arguments, 0-2 local assignments) = included at top level, and the '
+                                'wrapper\'s locals afterwards are what the call bound; every 5th program with arraySort call-backs '
+                                '(implementation and reference only); non-trivial = terminates without error and logs something')
+    rng = ctx.rng('includes')
+    cases = []
+    for i in range(ctx.scale(700, 12000)):
+        gen = IncludeGen(rng, allow_sort=(i % 5 == 4))
+        prog = gen.program()
+        cases.append((prog, gen.host(), gen.tags, i % 2 == 1, gen.files, i % 5 != 4, random_wrapper(rng)))
+    resps = iter(ctx.driver.batch([exec_request(prog, host, files) for prog, host, _, _, files, m, _ in cases if m]))
+    for prog, host, tags, flags, files, modelled, wrapper in cases:
+        compare_program(ctx, 'includes', st, prog, host, tags, flags, next(resps) if modelled else None, modelled=modelled, files=files)
+        url = sorted(files)[-1]
+        witness_all(ctx, 'include-transparent', {'fprogs': files, 'files': files_text(files), 'url': url, 'globals': host, 'wrapper': wrapper},
+                    oracle_include_transparent(files, url, host, wrapper))
 
 
 ARG_EXPRS = [num(11), string('s2'), call('arrayNew', num(33)), var('true'), num(55)]
@@ -1161,8 +1503,10 @@ def streams(ctx):
     stream_binding(ctx)
     stream_hostglobals(ctx)
     stream_exprmode(ctx)
+    stream_includescope(ctx)
     stream_calls(ctx)
     stream_sort(ctx)
+    stream_includes(ctx)
 
 
 def disagreement_known(d, known):
@@ -1182,18 +1526,25 @@ def search(ctx):
             if bad:
                 witness_all(ctx, 'binding', {'text': text, 'globals': {}, 'explicit_flags': flags, 'cell': list(cell)}, bad)
                 return
+    for cell in scope_cells():
+        bad = check_scope_cell(cell)
+        if bad:
+            witness_all(ctx, 'include-scope', {'cell': cell}, bad)
+            return
     rng = ctx.rng('search')
     for i in range(ctx.scale(8000, 60000)):
-        gen = CallGen(rng, allow_sort=(i % 4 == 0))
+        gen = (IncludeGen if i % 3 == 2 else CallGen)(rng, allow_sort=(i % 4 == 0))
         prog = gen.program()
         host = gen.host()
+        files = getattr(gen, 'files', None)
         flags = i % 2 == 1
         text = '\n'.join(progen.render(prog))
         model = parse(text)
-        impl = run_impl(explicit_flags(model) if flags else model, host)
-        bad = oracle_run(prog, host, impl)
+        impl = run_impl(explicit_flags(model) if flags else model, host, files=files)
+        bad = oracle_run(prog, host, impl, files)
         if bad:
-            witness_all(ctx, 'program', {'text': text, 'globals': host, 'explicit_flags': flags, 'prog': prog}, bad)
+            witness_all(ctx, 'program', {'text': text, 'globals': host, 'explicit_flags': flags, 'prog': prog, 'fprogs': files,
+                                         'files': files_text(files)}, bad)
             return
 
 
@@ -1203,10 +1554,14 @@ def replay(witness):
     oracle = witness.get('oracle')
     if kind == 'program':
         model = parse(inp['text'])
-        impl = run_impl(explicit_flags(model) if inp.get('explicit_flags') else model, inp['globals'])
+        impl = run_impl(explicit_flags(model) if inp.get('explicit_flags') else model, inp['globals'], files=inp.get('fprogs'))
         if oracle == 'no-host-exception':
             return 'hostexc' in impl
-        bad = oracle_run(inp['prog'], inp['globals'], impl)
+        bad = oracle_run(inp['prog'], inp['globals'], impl, inp.get('fprogs'))
+    elif kind == 'include-scope':
+        bad = check_scope_cell(inp['cell'])
+    elif kind == 'include-transparent':
+        bad = oracle_include_transparent(inp['fprogs'], inp['url'], inp['globals'], inp['wrapper'])
     elif kind == 'handbuilt':
         impl = run_impl(inp['model'], inp['globals'])
         if oracle == 'no-host-exception':
@@ -1236,13 +1591,17 @@ LEVEL_TEXT = ('Theorems about the Lean mirror of runtime.py (evaluate_expression
               'object; one frame invariant (induction on fuel, expressions and library interaction trees) shows that a function body - with '
               'all nested calls, call-backs and includes - changes the globals only at names written by `function` statements, library '
               'globalSet requests or top-level statements of included scripts, hence not at all when there are none (globals\' = globals); '
+              'an `include` statement hands the included scripts to execIncludes, which has no access to the including scope\'s locals, runs '
+              'each fetched script with locals = none (a top-level script, whatever scope issued the include) and the including scope '
+              'continues with the locals it had; '
               'variable lookup is locals, globals, null and function lookup is locals, globals, built-ins-only-if-enabled, so a bound name '
               'always wins over a built-in; injection keeps every host binding and the host order and binds the remaining names to the '
               'library; a `function` statement rebinds the global to the script function whatever was there; direct calls, call-backs of '
               'library trees and partial applications all go through the one callValue, so the binding theorem applies on every path. Tie: '
               'differential runs (result, log, final globals, statement count) of generated call programs, an exhaustive '
-              'parameters x arguments x call-path matrix and host-shadowing configurations against the compiled model, and an independent '
-              'Python reference of the convention plus closed-form oracles run on the implementation.')
+              'parameters x arguments x call-path matrix, an exhaustive include-position x local-binding x global-state matrix, generated '
+              'programs with include statements in every scope and host-shadowing configurations against the compiled model, and an '
+              'independent Python reference of the convention plus closed-form and metamorphic oracles run on the implementation.')
 LEVEL_NOTE = ('Trusted: Lean kernel; the correspondence harness with its reference interpreter. The Lean host models 18 library functions; '
               'arraySort comparators and the expression-mode built-in table are checked on the implementation only (the lookup theorems hold '
               'for any built-in table). A library predicate that fails inside arrayIndexOf is outside the model. Theorems are about the Lean '
